@@ -291,7 +291,8 @@ static void enum_const(int, const std::function<bool(const json &)> &emit) {
 
 // ------------------------------------------------------------------ sub "crosstable"
 // factors the LAMMPS dump reader applies to positions [Angstrom -> nm] and forces [kcal/mol/Angstrom -> kJ/mol/nm]
-static bool lammps_factors(double &fpos, double &fforce, std::string &err) {
+// flavour 0: plain columns x y z, 1: unwrapped xu yu zu, 2: scaled xs ys zs (fractions of the 100 Angstrom box)
+static bool lammps_factors(double &fpos, double &fforce, std::string &err, int flavour = 0) {
   using namespace votca::csg;
   char tmpl[] = "/verif/build/work/c20-XXXXXX";
   mkdir("/verif/build/work", 0777);
@@ -303,8 +304,10 @@ static bool lammps_factors(double &fpos, double &fforce, std::string &err) {
   std::string dir = d, file = dir + "/one.dump";
   {
     std::ofstream f(file);
-    f << "ITEM: TIMESTEP\n1\nITEM: NUMBER OF ATOMS\n1\nITEM: BOX BOUNDS pp pp pp\n0 100.0\n0 100.0\n0 100.0\n"
-         "ITEM: ATOMS id type x y z vx vy vz fx fy fz\n1 0 8.0 16.0 32.0 0.0 0.0 0.0 4.0 -2.0 64.0\n";
+    f << "ITEM: TIMESTEP\n1\nITEM: NUMBER OF ATOMS\n1\nITEM: BOX BOUNDS pp pp pp\n0 100.0\n0 100.0\n0 100.0\n";
+    if (flavour == 0) f << "ITEM: ATOMS id type x y z vx vy vz fx fy fz\n1 0 8.0 16.0 32.0 0.0 0.0 0.0 4.0 -2.0 64.0\n";
+    if (flavour == 1) f << "ITEM: ATOMS id type xu yu zu vx vy vz fx fy fz\n1 0 8.0 16.0 32.0 0.0 0.0 0.0 4.0 -2.0 64.0\n";
+    if (flavour == 2) f << "ITEM: ATOMS id type xs ys zs vx vy vz fx fy fz\n1 0 0.08 0.16 0.32 0.0 0.0 0.0 4.0 -2.0 64.0\n";
   }
   bool ok = true;
   std::streambuf *old = std::cout.rdbuf();
@@ -433,6 +436,22 @@ static const std::vector<Cross> &crosses() {
                    return true;
                  },
                  false});
+    for (int flavour = 1; flavour <= 2; ++flavour)
+      x.push_back({flavour == 1 ? "lammpsdump/position-unwrapped-columns" : "lammpsdump/position-scaled-columns",
+                   [uc, flavour](double &a, double &b, std::string &d1, std::string &d2) {
+                     double fp, ff;
+                     std::string err;
+                     if (!lammps_factors(fp, ff, err, flavour)) {
+                       d1 = err;
+                       return false;
+                     }
+                     a = fp;
+                     d1 = flavour == 1 ? "factor applied by LAMMPSDumpReader to xu" : "factor applied by LAMMPSDumpReader to xs * box length [Angstrom]";
+                     b = uc.convert(DistanceUnit::angstroms, DistanceUnit::nanometers);
+                     d2 = "convert(angstroms->nanometers)";
+                     return true;
+                   },
+                   false});
     x.push_back({"lammpsdump/force",
                  [uc](double &a, double &b, std::string &d1, std::string &d2) {
                    double fp, ff;
